@@ -8,7 +8,7 @@ from vf.models import LinkModel
 
 
 @st.composite
-def walk(draw, g, lm=None, max_len=8, start_pool=None):
+def walk(draw, g, lm=None, max_len=8, start_pool=None, revisit_bias=False):
     """A random walk on the link model: list of (orient, node)."""
     lm = lm or LinkModel(g["links"])
     ids = start_pool or list(g["nodes"])
@@ -20,6 +20,11 @@ def walk(draw, g, lm=None, max_len=8, start_pool=None):
         nxt = lm.steps(n, o)
         if not nxt:
             break
+        if revisit_bias:
+            seen = {x for _, x in steps}
+            back = [x for x in nxt if x[0] in seen]
+            if back and draw(st.booleans()):
+                nxt = back
         n, o = draw(st.sampled_from(nxt))
         steps.append((">" if o == "+" else "<", n))
     return steps
@@ -60,6 +65,33 @@ def cigar_for(draw, path_span, max_runs=6):
     return cg, qspan, matches, block
 
 
+def revisit_walks(g, lm, max_depth=6):
+    """All shortest closed walks (first node == last node, any orientation), one per oriented start, by BFS."""
+    out = []
+    for n in g["nodes"]:
+        for o in "+-":
+            frontier = [[(n, o)]]
+            found = None
+            for _ in range(max_depth):
+                nxt_frontier = []
+                for path in frontier:
+                    for m, mo in lm.steps(*path[-1]):
+                        p2 = path + [(m, mo)]
+                        if m == n:
+                            found = p2
+                            break
+                        if len(nxt_frontier) < 200:
+                            nxt_frontier.append(p2)
+                    if found:
+                        break
+                if found:
+                    break
+                frontier = nxt_frontier
+            if found:
+                out.append([(">" if oo == "+" else "<", nn) for nn, oo in found])
+    return out
+
+
 PLAIN_TAGS = [
     ("NM", "i", st.integers(0, 99).map(str)),
     ("AS", "i", st.integers(0, 9999).map(str)),
@@ -84,10 +116,10 @@ def plain_tags(draw, max_tags=3):
 
 @st.composite
 def record(draw, g, lm=None, canonical=False, name=None, max_len=8, with_cigar=True, tags=True,
-           start_pool=None, steps=None):
+           start_pool=None, steps=None, revisit_bias=False):
     """An unstable '+'-strand record over a walk. Returns a dict."""
     if steps is None:
-        steps = draw(walk(g, lm, max_len=max_len, start_pool=start_pool))
+        steps = draw(walk(g, lm, max_len=max_len, start_pool=start_pool, revisit_bias=revisit_bias))
     lens = [g["nodes"][n]["ln"] for _, n in steps]
     total = sum(lens)
     if canonical:
